@@ -120,6 +120,16 @@ for pid, title in [("C16", "names and metadata (WalkAtomic, WalkPrefix, QidIdent
         "TLA+/TLC model checking + tour/simulation replay on real Ufs with twin-tree comparison + TLC trace validation of the twin log",
         "ufstree", "DESIGN.md 4.6, 6 " + pid + ", docs/ufstree.md"))
 CHECKS += [
+    chk("C19", "exploration",
+        "The property is defined by the Go race detector, which is the oracle. Work19.tla specifies the workload domain (goroutines on "
+        "their own fids, walks from a shared fid, flushes of own requests, quiescent connections opened and dropped) and TLC checks that "
+        "every reachable state satisfies the precondition DisjointFids; simulated behaviours of it are expanded into real goroutines "
+        "against Ufs through one shared client and against the framework through one raw connection, built -race, with several yield "
+        "patterns at the library's schedule points.",
+        "Trusted base: the Go race detector (dynamic: only races on executed interleavings are seen); attribution to the library requires "
+        "both access stacks in repository files.",
+        "TLA+ workload-domain model (TLC simulation for skeletons) + race-detector runs of the expanded workloads on the real code",
+        "race", "DESIGN.md 6 C19"),
     chk("C12", "model_checking",
         "Nego.tla models Tversion (min, refusal below IOHDRSZ, dialect only if both asked), later replies packed into fresh or recycled "
         "reply buffers, and announced frame sizes; FrameWithinMsize/MsizeOnlyShrinks/DialectNeedsBoth are model-checked. The grid of server "
@@ -172,6 +182,8 @@ def main():
               "kind_free_text": "real client + real Ufs on a scratch tree"},
              {"name": "ufstree", "path": "harness/ufstree + spec/UfsTree.tla, UfsTreeTrace.tla", "serves_properties": ["C16", "C17", "C18"],
               "kind_free_text": "raw 9P + twin tree + model"},
+             {"name": "race", "path": "harness/raceh + spec/Work19.tla", "serves_properties": ["C19"],
+              "kind_free_text": "-race builds of workload skeletons"},
              {"name": "logger", "path": "harness/logh + spec/Logger.tla, LoggerTrace.tla", "serves_properties": ["C20"],
               "kind_free_text": "tour replay and recorded-trace validation of go9p.Logger"},
          ],
